@@ -233,7 +233,8 @@ def gen_plan(prop, tier, rng, i):
     maxlen = max(3, min(4000, int(3 * cap)))
     nw = rng.randrange(2, 13 if prop in ("C01", "C04", "C06") else 9)
     plan = {"engine": "rfsim", "cfg": cfg.to_json(), "readdir_seed": rng.randrange(2**32),
-            "regen": prop == "C06" or rng.random() < 0.2}
+            "regen": prop == "C06" or rng.random() < 0.2,
+            "cnode": (prop == "C05" and i % 2 == 0) or (prop == "C01" and i % 4 == 0)}
     if prop == "C11":
         plan["sessions"] = _gen_sessions(rng, cfg, maxlen)
     else:
@@ -831,6 +832,140 @@ def _regenerate(ctx, cfg, model, tree, top, plan, pick_each=False):
         os.rename(saved, pf)
 
 
+def _run_cnode(ctx, cfg, ops, sc, cnode_bin):
+    """C05 / C01 through the public C API: replay the session with the ASan/UBSan driver, paused after
+    every call so that the tree can be fingerprinted around rejected calls."""
+    import subprocess
+
+    import digital_rf
+
+    res = ctx.res
+    top = os.path.join(sc, "ctree")
+    chdir = os.path.join(top, cfg.channel)
+    os.makedirs(chdir)
+    ddir = os.path.join(sc, "cdata")
+    os.makedirs(ddir)
+    rd = cfg.real_dtype
+    lines = ["init %s %s %d %s %d %d %d %d %d %d %d %d %d %d %s" % (
+        chdir, rd.kind, rd.itemsize, "<" if (cfg.order == "<" or rd.itemsize == 1 or cfg.cstyle == "native") else ">",
+        cfg.nsub, cfg.n, cfg.d, cfg.file_ms, cfg.subdir_s, int(cfg.continuous), cfg.compression, int(cfg.checksum),
+        int(cfg.is_complex), cfg.start, cfg.uuid)]
+    model = M.RFModel(cfg)
+    sm = M.SessionModel(cfg, model)
+    expect = [("init", True, None)]
+    # native complex input is converted to little endian by the Python layer; the C replay stores LE too
+    ccfg = cfg if cfg.cstyle != "native" else M.Cfg(**dict(cfg.to_json(), order="<"))
+    for i, op in enumerate(ops):
+        df = os.path.join(ddir, "op%d.bin" % i)
+        if op["op"] == "w":
+            rel = op["rel"] if op["rel"] is not None else sm.next_avail
+            valid = sm.classify_write(rel, op["len"]) and op["len"] > 0
+            if op["len"] == 0:
+                continue
+            bits = M.write_data_bits(ccfg, rel, op["len"], op["salt"])
+            M.input_array(ccfg, bits).tofile(df)
+            lines.append("w %d %d %s" % (rel, op["len"], df))
+            if valid:
+                pred = sm.apply_write(rel, op["len"], op["salt"])
+            expect.append(("w", valid, sm.next_avail))
+        else:
+            g, b = op["g"], op["b"]
+            k = min(len(g), len(b))
+            g, b = g[:k], b[:k]
+            valid = sm.classify_blocks(g, b, op["len"])
+            if cfg.continuous and k > 1:
+                valid = False  # the C API rejects gapped data in continuous mode
+                res.probe("c_gapped_in_continuous")
+            try:
+                bits = M.block_data_bits(ccfg, g, b, op["len"], op["salt"])
+            except Exception:  # noqa
+                bits = M.write_data_bits(ccfg, 0, op["len"], op["salt"])
+            M.input_array(ccfg, bits).tofile(df)
+            lines.append("wb %d %s %d %s %s" % (op["len"], df, k, " ".join(str(x) for x in g), " ".join(str(x) for x in b)))
+            if valid:
+                sm.apply_blocks(g, b, op["len"], op["salt"])
+            expect.append(("wb", valid, sm.next_avail))
+        if i % 5 == 4:
+            # index_len = 0
+            lines.append("wb 3 %s 0" % df)
+            expect.append(("wb0", False, sm.next_avail))
+    lines.append("close")
+    expect.append(("close", True, None))
+    pf = os.path.join(sc, "cplan.txt")
+    with open(pf, "w") as f:
+        f.write("\n".join(lines) + "\n")
+    env = dict(os.environ)
+    env.pop("LD_PRELOAD", None)
+    env["ASAN_OPTIONS"] = "detect_leaks=0:abort_on_error=0:exitcode=66"
+    env["UBSAN_OPTIONS"] = "halt_on_error=1:print_stacktrace=1:exitcode=67"
+    proc = subprocess.Popen([cnode_bin, pf], stdin=subprocess.PIPE, stdout=subprocess.PIPE, stderr=subprocess.PIPE,
+                            env=env, text=True)
+    last_gidx = 0
+    broken = False
+    try:
+        fp_next = None
+        for j, (kind, valid, nxt) in enumerate(expect):
+            fp_before = fp_next  # taken while the driver was paused before this call
+            line = proc.stdout.readline()
+            if not line:
+                break
+            parts = line.split()
+            rc, gidx, hasfail = int(parts[2]), int(parts[3]), int(parts[4])
+            res.stat("c_api_calls")
+            if kind in ("w", "wb", "wb0") and not broken:
+                if not valid:
+                    res.probe("c_invalid_call")
+                    if rc == 0:
+                        ctx.v("C05", "c_invalid_accepted", "C API accepted an invalid call: %s" % lines[j])
+                    fp = K.fingerprint(chdir, meta=True)
+                    if fp != fp_before:
+                        ctx.v("C05", "c_rejected_call_changed_files", "C API call %r was rejected (rc %d) but changed the "
+                              "directory: %s" % (lines[j][:120], rc, K.fp_diff(fp_before, fp)))
+                    if gidx != last_gidx:
+                        ctx.v("C05", "c_rejected_call_moved_cursor", "C API call %r was rejected (rc %d) but the next-sample "
+                              "position moved %d -> %d" % (lines[j][:120], rc, last_gidx, gidx))
+                    if hasfail:
+                        ctx.v("C05", "c_rejected_call_poisoned_writer", "rejected call %r set has_failure" % lines[j][:120])
+                else:
+                    if rc != 0:
+                        res.probe("unexpected_valid_write_failure")
+                        broken = True
+                    elif gidx != nxt:
+                        ctx.v("C05", "c_valid_after_rejected_wrong", "valid C API call %r: next sample %d, model says %d" % (
+                            lines[j][:120], gidx, nxt))
+            last_gidx = gidx
+            fp_next = None
+            if j + 1 < len(expect) and not expect[j + 1][1]:
+                fp_next = K.fingerprint(chdir, meta=True)
+            proc.stdin.write("go\n")
+            proc.stdin.flush()
+        proc.stdin.close()
+        err = proc.stderr.read()
+        rc = proc.wait(timeout=60)
+    finally:
+        if proc.poll() is None:
+            proc.kill()
+    if rc != 0 or "AddressSanitizer" in err or "runtime error" in err:
+        ctx.v("C05", "c_sanitizer_report", "cnode exited %s: %s" % (rc, err[-600:]))
+        return
+    if broken:
+        return
+    # read back what the C API wrote
+    try:
+        reader = digital_rf.DigitalRFReader(top)
+        eb = model.expected_bounds()
+        if eb[0] is not None:
+            for p_, cls, msg in RC.read_vs_model(reader, ccfg, model, eb[0], eb[1]):
+                ctx.v("C05" if ctx.prop == "C05" else p_, "c_" + cls, "C API tree: " + msg)
+            errs = RC.check_channel_files(ccfg, model, chdir, {cfg.uuid: cfg.start})
+            ctx.emit([(p_, "c_" + c, m) for p_, c, m in errs], "C API tree")
+        res.probe("c_api_tree_read_back")
+    except K.HarnessError:
+        raise
+    except Exception as e:  # noqa
+        ctx.v("C05", "c_tree_unreadable", "tree written through the C API: %s: %s" % (type(e).__name__, str(e)[:200]))
+
+
 def run_plan(prop, plan):
     import digital_rf
 
@@ -913,6 +1048,8 @@ def run_plan(prop, plan):
                         if p_ == "C01":
                             res.violate("C11", "union_" + cls, msg)
         _queries(ctx, readers, cfg, chan_model, plan.get("queries", []))
+        if plan.get("cnode") and len(plan["sessions"]) == 1 and os.environ.get("VSIM_CNODE"):
+            _run_cnode(ctx, cfg, plan["sessions"][0]["ops"], sc, os.environ["VSIM_CNODE"])
         if plan.get("regen") and len(tops) >= 1:
             _regenerate(ctx, cfg, per_top_models[tops[0]], tree, tops[0], plan)
         # ---- non-triviality and probes
